@@ -568,3 +568,13 @@ func (r *Report) ruleText(id string) string {
 
 // theProgram: the program currently analysed (used by the abstract evaluator to resolve package initialisers).
 var theProgram *Program
+
+// typeByName: a named type of any loaded package.
+func (p *Program) typeByName(pkgPath, name string) types.Type {
+	if pk := p.SSA.ImportedPackage(pkgPath); pk != nil {
+		if o := pk.Pkg.Scope().Lookup(name); o != nil {
+			return o.Type()
+		}
+	}
+	return types.Typ[types.Invalid]
+}
